@@ -7,7 +7,7 @@ import xml.etree.ElementTree as ET
 NS = 'http://www.collada.org/2005/11/COLLADASchema'
 ET.register_namespace('', NS)
 
-KINDS = ['dangling', 'nohash', 'nonnum', 'emptytext', 'rmchild', 'rmattr', 'truncate', 'crossref']
+KINDS = ['dangling', 'nohash', 'nonnum', 'emptytext', 'rmchild', 'rmattr', 'truncate', 'crossref', 'extref']
 
 LIBS = {  # library tag -> (item tag, Collada attribute)
     'library_images': ('image', 'images'),
@@ -153,7 +153,7 @@ def apply_faults(text, faults):
                     el.text = ' '.join(toks)
         elif k == 'emptytext':
             el.text = ''
-        elif k == 'crossref':
+        elif k in ('crossref', 'extref'):
             if f.get('attr'):
                 el.set(f['attr'], f['value'])
             else:
@@ -286,7 +286,7 @@ def site_label(f):
     where = f.get('tag', '?')
     if f.get('attr'):
         where += '@' + f['attr']
-    elif f['kind'] in ('nonnum', 'emptytext', 'dangling', 'crossref'):
+    elif f['kind'] in ('nonnum', 'emptytext', 'dangling', 'crossref', 'extref'):
         where += '/text'
     return '%s:%s' % (f['kind'], where)
 
@@ -370,5 +370,69 @@ def crossref_sites(root):
 def dangling_twin(f):
     """the same fault with an undefined name"""
     g = dict(f)
-    g['value'] = ('#' if f['value'].startswith('#') else '') + 'nosuch-zz'
+    if f['kind'] == 'extref':
+        g['value'] = f['pattern'] % 'nosuch-zz'
+    else:
+        g['value'] = ('#' if f['value'].startswith('#') else '') + 'nosuch-zz'
     return g
+
+
+# references that are not '#'+id although their fragment (or their whole text) coincides with a
+# local id: another document, a doubled or trailing '#', white space, the bare id
+EXTREF_PATTERNS = ['parts.dae#%s', './lib/x.dae#%s', 'http://example.org/a.dae#%s', '##%s', '#%s#x', '# %s', '%s', '#%s ']
+
+
+def extref_sites(root, rng=None, per_site=None):
+    """every reference attribute whose value is '#'+id, rewritten with each pattern (or per_site
+    random ones), keeping the local id as the fragment.  The result must not depend on the id
+    being a local one: the twin uses an undefined id in the same pattern."""
+    out = []
+    for i, el in enumerate(elements(root)):
+        for a in REF_ATTRS:
+            v = el.get(a)
+            if v and v.startswith('#') and len(v) > 1:
+                pats = EXTREF_PATTERNS
+                if per_site is not None and rng is not None:
+                    pats = rng.sample(EXTREF_PATTERNS, per_site)
+                for p in pats:
+                    out.append({'kind': 'extref', 'elem': i, 'attr': a, 'tag': bare(el.tag), 'pattern': p, 'value': p % v[1:]})
+        if el.get('url') is not None or el.get('target') is not None:
+            for a in ('url', 'target'):
+                if el.get(a) is not None:
+                    out.append({'kind': 'extref', 'elem': i, 'attr': a, 'tag': bare(el.tag), 'pattern': '%s', 'value': '', 'empty': True})
+                    out.append({'kind': 'extref', 'elem': i, 'attr': a, 'tag': bare(el.tag), 'pattern': '%s', 'value': '#', 'empty': True})
+    return out
+
+
+def deferral_pairs(root, sites):
+    """[(B, A)]: A makes an <instance_node> of a top-level node dangling (the whole node is deferred and
+    finally reported), B is another fault in an earlier part of the same top-level node - B's error
+    is reached, and must be recorded, on every attempt to load the node"""
+    els = elements(root)
+    parents = parent_map(root)
+    idx = {id(e): i for i, e in enumerate(els)}
+    out = []
+    for top in els:
+        p = parents.get(top)
+        if bare(top.tag) != 'node' or p is None or bare(p.tag) not in ('library_nodes', 'visual_scene'):
+            continue
+        inside = {idx[id(e)] for e in top.iter()}
+        for inode in top.iter():
+            if bare(inode.tag) != 'instance_node' or not (inode.get('url') or '').startswith('#'):
+                continue
+            i = idx[id(inode)]
+            anc = set()
+            e = inode
+            while e is not None:
+                anc.add(idx[id(e)])
+                e = parents.get(e)
+            a = {'kind': 'dangling', 'elem': i, 'attr': 'url', 'tag': 'instance_node'}
+            for b in sites:
+                j = b.get('elem')
+                if j is None or j not in inside or j >= i or j in anc:
+                    continue
+                if b['kind'] in ('nonnum', 'dangling', 'nohash', 'emptytext') or (b['kind'] == 'rmattr' and b.get('attr') in ('url', 'target')):
+                    if bare(els[j].tag) == 'instance_node':
+                        continue
+                    out.append((b, a))
+    return out
